@@ -553,6 +553,11 @@ func c15SitesGen(g *hx.Gen) {
 	}
 }
 
+// ---- c15.activate ----
+
+// the same site sets as c15.sites (the generator is deterministic in the seed of its own stream)
+func c15ActivateGen(g *hx.Gen) { c15SitesGen(g) }
+
 // ---- c15.redirect ----
 
 var c15HostHeaders = []string{"example.com", "example.com:80", "EXAMPLE.com", "example.com:", "example.com:8080", "a_b.example.com", "[::1]", "[::1]:80", "[2001:db8::1]:8080", "[2001:DB8::1]",
